@@ -20,8 +20,10 @@ SOURCES = {
     "basic": '''"""Doc."""
 import os
 from typing import List
+from collections import OrderedDict as OD   # the stub may newly import the same object under its own name
 
 X = 1  # module level code
+Y = OD()
 
 
 def deco(f):
@@ -147,7 +149,7 @@ def strip_added(tree, original):
                 body.append(st)
             elif isinstance(st, ast.ImportFrom):
                 # an existing `from typing import List` may have gained names: keep only the original ones
-                keep = [a for a in st.names if any(ast.unparse(o).startswith("from %s import" % st.module) and a.name in [x.name for x in o.names]
+                keep = [a for a in st.names if any(ast.unparse(o).startswith("from %s import" % st.module) and (a.name, a.asname) in [(x.name, x.asname) for x in o.names]
                                                    for o in original.body if isinstance(o, ast.ImportFrom))]
                 if keep:
                     st.names = keep
@@ -160,6 +162,28 @@ def strip_added(tree, original):
         body.append(st)
     tree.body = body
     return tree
+
+
+def _imports(tree):
+    top, confined = set(), set()
+    for st in tree.body:
+        if isinstance(st, (ast.Import, ast.ImportFrom)):
+            top |= {(getattr(st, "module", None), a.name, a.asname) for a in st.names}
+        elif isinstance(st, ast.If) and "TYPE_CHECKING" in ast.unparse(st.test):
+            for s2 in st.body:
+                if isinstance(s2, (ast.Import, ast.ImportFrom)):
+                    confined |= {(getattr(s2, "module", None), a.name, a.asname) for a in s2.names}
+    return top, confined
+
+
+def readds_confined_imports_only(first, second):
+    """The recorded finding: the second application differs from the first only by module-level imports (new statements, or names merged into an
+    existing statement) of names that the first application had confined under TYPE_CHECKING."""
+    t1, t2 = ast.parse(first), ast.parse(second)
+    top1, conf1 = _imports(t1)
+    top2, conf2 = _imports(t2)
+    rest = lambda t: ast.dump(ast.Module(body=[st for st in t.body if not isinstance(st, (ast.Import, ast.ImportFrom))], type_ignores=[]))
+    return top1 <= top2 and bool(top2 - top1) and (top2 - top1) <= conf1 and rest(t1) == rest(t2)
 
 
 def annotations_of(tree):
@@ -237,7 +261,7 @@ def run(ctx):
                                 import difflib
                                 added = [l[1:] for l in difflib.unified_diff(out.splitlines(), again.splitlines(), lineterm="", n=0) if l.startswith("+") and not l.startswith("+++")]
                                 removed = [l[1:] for l in difflib.unified_diff(out.splitlines(), again.splitlines(), lineterm="", n=0) if l.startswith("-") and not l.startswith("---")]
-                                if confine and overwrite and not removed and added and all(a_.startswith(("from ", "import ")) and ("    " + a_) in out for a_ in added):
+                                if confine and overwrite and readds_confined_imports_only(out, again):
                                     known_second = True
                                 else:
                                     problems.append("second application changes the source: +%s -%s" % (added[:3], removed[:3]))
